@@ -63,6 +63,7 @@ func (s Step) String() string {
 type Scenario struct {
 	Net       bool      `json:"net,omitempty"`        // Loop over server.NetAccepter(in-memory net.Listener, channel.Line) instead of the in-memory Accepter
 	PreCancel bool      `json:"pre_cancel,omitempty"` // the context has ended before Loop is called
+	OnCtxEnd  string    `json:"on_ctx_end,omitempty"` // in-memory accepter: what Accept yields when the context ends ("" closed listener, "other", "ctxerr")
 	Salt      uint64    `json:"salt,omitempty"`
 	Pins    []sim.Pin `json:"pins,omitempty"`
 	NoHooks bool      `json:"no_hooks,omitempty"`
@@ -171,8 +172,9 @@ func (w *lworld) gate(n int) chan struct{} {
 }
 
 type accepter struct {
-	conns chan channel.Channel
-	fail  chan error
+	conns    chan channel.Channel
+	fail     chan error
+	onCtxEnd string // what Accept yields when the context ends: "" closed listener, "other", "ctxerr"
 }
 
 func (a *accepter) Accept(ctx context.Context) (channel.Channel, error) {
@@ -182,6 +184,12 @@ func (a *accepter) Accept(ctx context.Context) (channel.Channel, error) {
 	case err := <-a.fail:
 		return nil, err
 	case <-ctx.Done():
+		switch a.onCtxEnd {
+		case "other":
+			return nil, errOther // an accepter of the user's own may fail in its own way
+		case "ctxerr":
+			return nil, ctx.Err()
+		}
 		// what NetAccepter yields when the context ends: a closed-listener error
 		return nil, fmt.Errorf("accept: %w", net.ErrClosed)
 	}
@@ -274,7 +282,7 @@ func run(t *testing.T, sc Scenario) engine.Verdict {
 		}()
 		synctest.Test(t, func(t *testing.T) {
 			w.drain = make(chan struct{}) // channels must belong to the bubble
-			acc := &accepter{conns: make(chan channel.Channel), fail: make(chan error)}
+			acc := &accepter{conns: make(chan channel.Channel), fail: make(chan error), onCtxEnd: sc.OnCtxEnd}
 			lst := &memListener{conns: make(chan net.Conn), fail: make(chan error), closed: make(chan struct{})}
 			listener = lst
 			var theAccepter server.Accepter = acc
@@ -311,6 +319,8 @@ func run(t *testing.T, sc Scenario) engine.Verdict {
 					e.flag = "nil"
 				case err == errOther:
 					e.flag = "other"
+				case err == context.Canceled:
+					e.flag = "ctxerr"
 				default:
 					e.flag, e.err = "unexpected", err.Error()
 				}
@@ -630,8 +640,17 @@ func run(t *testing.T, sc Scenario) engine.Verdict {
 			return fail("loop-result", "the accepter failed with its own error, Loop returned %s %s", loopFlag, loopErr)
 		}
 	case failSeq < 0 || failKind != "other":
-		if loopFlag != "nil" {
-			return fail("loop-result", "Loop ended by context end / closed-listener error but returned %s %s", loopFlag, loopErr)
+		want := "nil"
+		if !sc.Net && sc.OnCtxEnd != "" && (failSeq < 0 || (cancelSeq >= 0 && failSeq > cancelSeq)) {
+			// this accepter answers the end of the context with an error of its own,
+			// which is not a closed-listener error: Loop hands it on
+			want = sc.OnCtxEnd
+			if failSeq >= 0 && racing(sc, evs, failSeq, cancelSeq) {
+				want = loopFlag // the two ends race
+			}
+		}
+		if loopFlag != want {
+			return fail("loop-result", "Loop ended by context end / closed-listener error (accepter answers the end of the context with %q) but returned %s %s, want %s", sc.OnCtxEnd, loopFlag, loopErr, want)
 		}
 	}
 	// after the context ended every parked handler saw a cancelled context
@@ -772,6 +791,9 @@ func genScenarioMode(t *rapid.T, netMode bool) Scenario {
 	sc := Scenario{Salt: rapid.Uint64().Draw(t, "salt"), Net: netMode}
 	if netMode && rapid.IntRange(0, 7).Draw(t, "precancel") == 0 {
 		sc.PreCancel = true
+	}
+	if !netMode {
+		sc.OnCtxEnd = rapid.SampledFrom([]string{"", "", "", "other", "ctxerr"}).Draw(t, "onctxend")
 	}
 	if rapid.IntRange(0, 9).Draw(t, "nohooks") == 0 {
 		sc.NoHooks = true
